@@ -241,7 +241,11 @@ impl Buffer {
             if layer.lines.len() < caret.pos.y as usize + 1 {
                 layer.lines.resize(caret.pos.y as usize + 1, Line::with_capacity(buffer_width));
             }
-            layer.lines[caret.pos.y as usize].insert_char(caret.pos.x, AttributedChar::default());
+            let line = &mut layer.lines[caret.pos.y as usize];
+            line.insert_char(caret.pos.x, AttributedChar::default());
+            // the character pushed over the right edge is lost (as in Caret::ins), the line does not grow beyond the screen
+            let width = if self.is_terminal_buffer { self.terminal_state.get_width() } else { buffer_width };
+            line.chars.truncate(width.max(0) as usize);
         }
         if caret.pos.y + 1 > self.layers[layer].get_height() {
             self.layers[layer].set_height(caret.pos.y + 1);
